@@ -192,6 +192,8 @@ HDIALECTS = {
     "default": {"cpu": None, "ok": "nop", "jump": "jmp", "byte": "dc.b\t%s,0", "res": "ds.b\t2", "other": "68020"},
 }
 M68K_ONLY = ("padding", "supmode")
+# per-target state cleared by SetCPUCore: the target to visit
+VISIT = {"switchocc": "msm5054", "pageocc": "sx20", "shiftocc": "kenbak", "onoff": "sh7600"}
 
 
 def hist_dialects(lines):
@@ -242,6 +244,9 @@ def render_hist_file(lines, dialect, fno, defs=True):
                 out.append("\tcharset\t'a',1")
             elif f == "sym":
                 out.append("lkflag\tequ\t5")
+            elif f in VISIT:
+                # a visit to a target that sets per-target state, and back (through SetCPUCore)
+                out += ["\tcpu\t" + VISIT[f], "\tcpu\t" + (dl["cpu"] or "68008")]
             elif f == "macro":
                 out += ["lkum\tmacro", "\t" + dl["ok"], "\tendm"]
             elif f == "func":
@@ -274,6 +279,12 @@ def render_hist_file(lines, dialect, fno, defs=True):
                 out.append("\t" + dl["byte"] % ("DEFINED(lkflag)+%d" % (2 * i)))
             elif f == "cpu":
                 out.append("\t" + dl["ok"])
+            elif f == "switchocc":
+                out += ["\tswitch\t1", "\tcase\t1", "\t" + dl["byte"] % str(2 * i), "\tendcase"]
+            elif f == "pageocc":
+                out += ["\tpage\t60", "\t" + dl["byte"] % str(2 * i)]
+            elif f == "shiftocc":
+                out += ["smq%d\tmacro\tpxa,pxb" % i, "\tshift", "\t" + dl["byte"] % "pxa", "\tendm", "\tsmq%d\t1,2" % i]
             else:
                 raise ValueError(ln)
         elif k == "use":
@@ -281,6 +292,8 @@ def render_hist_file(lines, dialect, fno, defs=True):
                 out.append("\tlkum")
             elif ln["f"] == "func":
                 out.append("\t" + dl["byte"] % "lkuf(1)")
+            elif ln["f"] == "onoff":
+                out.append("\tcompliterals\ton")       # registered by the SH7000 target only
             else:
                 raise ValueError(ln)
         elif k == "open":
